@@ -4,20 +4,25 @@ package pp
 
 import "github.com/ohler55/slip"
 
-// Quote represents a list.
+// Quote represents a quoted or backquoted object.
 type Quote struct {
-	child Node
-	wide  int
-	x     int
+	prefix string
+	child  Node
+	wide   int
+	x      int
 }
 
 func newQuote(obj slip.Object, p *slip.Printer) Node {
-	return &Quote{child: buildQNode(obj, p)}
+	return &Quote{prefix: "'", child: buildQNode(obj, p)}
+}
+
+func newBackquote(obj slip.Object, p *slip.Printer) Node {
+	return &Quote{prefix: "`", child: buildQNode(obj, p)}
 }
 
 func (q *Quote) layout(left int) (w int) {
 	q.x = left
-	w = q.child.layout(left+1) + 1
+	w = q.child.layout(left+len(q.prefix)) + len(q.prefix)
 	q.wide = w
 
 	return
@@ -25,13 +30,13 @@ func (q *Quote) layout(left int) (w int) {
 
 func (q *Quote) reorg(edge int) int {
 	if edge < q.right() {
-		q.wide = q.child.reorg(edge) + 1
+		q.wide = q.child.reorg(edge) + len(q.prefix)
 	}
 	return q.wide
 }
 
 func (q *Quote) adjoin(b []byte) []byte {
-	b = append(b, '\'')
+	b = append(b, q.prefix...)
 	return q.child.adjoin(b)
 }
 
